@@ -19,8 +19,8 @@ def main():
         ok, reached = bool(r[0]), bool(r[1])
         detail = r[2] if len(r) > 2 else ""
         out = {"status": "holds" if ok else "violates", "reached": reached, "detail": str(detail)}
-    except Exception as e:   # an exception escaping the condition is itself a failed post
-        out = {"status": "violates", "reached": True,
+    except Exception as e:   # conditions catch what the code under test may raise: this is a harness error
+        out = {"status": "harness_exception", "reached": True,
                "detail": "exception %s: %s\n%s" % (type(e).__name__, e, traceback.format_exc()[-600:])}
     print("REPLAY " + json.dumps(out))
 
